@@ -17,8 +17,13 @@ def run(chk, w):
                        "created is joined and forgotten, conditional creation included (JOIN); an entry that owns a heap buffer is never freed without that buffer (OWN); every "
                        "global container allocated on the start path is freed on the stop path and re-created by the next start (PAIR). Shutdown traffic content and leak freedom "
                        "beyond these pairings are not decided.")
+    from .. import inline
     stop = P.functions.get("bidib_stop")
     starts = [P.functions[n] for n in ("bidib_start_pointer", "bidib_start_serial") if n in P.functions]
+    # the sequences are properties of the routines' algorithms: static helpers of the same file are looked through
+    if stop is not None:
+        stop = inline.expanded(P, stop.name)
+    starts = [inline.expanded(P, f_.name) for f_ in starts]
     if stop is None or len(starts) < 2:
         raise AnalysisBroken("public lifecycle functions bidib_stop / bidib_start_* not found")
     SOFT = _enum(P, "BIDIB_CS_SOFTSTOP")
@@ -122,7 +127,7 @@ def run(chk, w):
     for f in starts:
         for c in f.calls():
             g = P.functions.get(c.callee or "")
-            if g is None or not g.blocks or g is stop or not writes_globals(g):
+            if g is None or not g.blocks or (stop is not None and g.name == stop.name) or not writes_globals(g):
                 continue
             if guarded_by_running(f, c, False):
                 chk.ok("C16-GUARD", 1, {"start": f.name, "call": c.callee})
@@ -242,6 +247,11 @@ def run(chk, w):
                 for t in flow.origins(f, c.args[0]):
                     if t[0] == "gload":
                         freed.add((t[1], t[2]))
+                    elif t[0] == "field" and isinstance(t[1], tuple) and t[1][0] == "param":
+                        # freed through a pointer parameter (`GQueue **q` ... g_queue_free(*q)`): the globals whose address the callers pass
+                        for cf_, ci_ in P.callers().get(f.name, []):
+                            if t[1][1] < len(ci_.args) and ci_.args[t[1][1]].get("k") == "global":
+                                freed.add((ci_.args[t[1][1]]["name"], ci_.args[t[1][1]].get("off", 0) + (t[2] or 0)))
     for (g, off), (f, s) in sorted(allocated.items()):
         if (g, off) in freed or (g, None) in freed:
             chk.ok("C16-PAIR", 1, {"global": g, "offset": off, "allocated_in": f.name})
